@@ -3,6 +3,7 @@ package scen
 import (
 	"fmt"
 	"strings"
+	"time"
 
 	"simh/sim"
 )
@@ -38,7 +39,7 @@ func drawPolicy(c *Ctx, tw *TunWorld) string {
 
 // runC16: every packet of histories with every kind of outcome, under a drawn policy.
 func runC16(c *Ctx) {
-	tw := PlanTunnels(c, TunOpts{N: 1 + c.T.Weighted(3, 1), Transports: []string{"ws", "legacy"}})
+	tw := PlanTunnels(c, TunOpts{N: 1 + c.T.Weighted(3, 1), Transports: []string{"ws", "legacy"}, ExtraHosts: []string{"again.test:3389"}})
 	pol := drawPolicy(c, tw)
 	tw.NTLM = c.T.Bool(1, 5)
 	if !BootTun(c, tw, false) {
@@ -87,6 +88,44 @@ func runC16(c *Ctx) {
 			c.S.Count("probe.tunnel_auth_response_checked")
 		}
 		npk += len(t.Client.Packets())
+	}
+	if c.S.Viol == nil && !tw.NTLM && c.T.Bool(1, 5) {
+		// history: a host that accepted a channel a moment ago goes down; the next channel
+		// create for it is not accepted, and its response must say so
+		c.S.Draining = false
+		hst := c.W.AddHost("again.test:3389", [][]byte{[]byte("banner")})
+		for k := 0; k < 2 && c.S.Viol == nil; k++ {
+			p := &TunPlan{Name: fmt.Sprintf("s%d", k), Transport: []string{"ws", "legacy"}[c.T.Choose(2)], From: fmt.Sprintf("10.1.8.%d:4100%d", 1+k, k), ConnID: fmt.Sprintf("{AGAIN-%d-%d}", c.Res.Seed, k), User: "user0", CloseAfter: -1}
+			p.AccessToken = tw.Plans[0].AccessToken
+			verdict := HostAllowed
+			if k == 1 {
+				verdict = HostUnreachable
+			}
+			p.Pkts = []CPkt{PHandshake(tw.MC.ServerCaps, 1, 0), PTunnelCreate(ValidCookie(c, tw, p, "again.test:3389"), true), PTunnelAuth("n"), PChannel("again.test:3389", verdict), PData([]byte("hello"))}
+			if tw.MC.ServerCaps == 0 {
+				p.Pkts[0] = PHandshake(0, 1, 0)
+			}
+			ts := StartTunnels(c, []*TunPlan{p})
+			if k == 0 {
+				ts[0].Hosts = append(ts[0].Hosts, hst)
+			}
+			// (short waits: the whole history stays within a few seconds of simulated time)
+			t1 := ts[0]
+			c.S.Run(func() bool { return t1.SentAll() || t1.Client.Failed != "" }, 3000, 2*time.Second)
+			c.S.Run(nil, 400, 300*time.Millisecond)
+			CheckTunnel(c, t1, tw.MC, "C16")
+			t1.Client.CloseAll(false)
+			c.S.Run(nil, 200, 200*time.Millisecond)
+			if k == 0 {
+				hst.Down()
+				c.S.Advance(time.Duration(c.T.Choose(12)) * time.Second)
+			}
+		}
+		c.S.Count("probe.host_down_after_success")
+	}
+	if v := c.S.Viol; v != nil && v.Oracle == "C01" && v.Sig == "success-out-of-order" && strings.Contains(v.Msg, "unreach") {
+		// status 0 for a channel create that was not accepted (the host cannot be reached)
+		v.Oracle = "C16"
 	}
 	c.S.Stats["probe.server_packets_decoded"] += npk
 	c.Res.Reach = npk >= 2
